@@ -169,7 +169,14 @@ func VPH_C12_http_xff() {
 	x2 := vp.String("xff2")
 	vp.Assume(!strings.Contains(x2, ","))
 	var elems []string
-	switch vp.Choice("first", 4) {
+	switch vp.Choice("first", 7) {
+	case 4:
+		elems = []string{"unknown", x2} // an element that is no address does not end the validation
+		vp.Cover("after-unparsable")
+	case 5:
+		elems = []string{" ", x2}
+	case 6:
+		elems = []string{"10.9.9.9:53", x2}
 	case 0:
 		elems = []string{"10.1.2.3", x2} // repeats the peer
 		vp.Cover("peer-repeated")
